@@ -663,6 +663,118 @@ def nonfinite_section(ctx, torch, g):
                 break
 
 
+# ---- derivatives carrying clauses (add_clause) that alter the payoff on the generated paths ---------------------------------------------
+
+CLAUSE_OPTIONS = ["EuropeanOption", "LookbackOption", "EuropeanBinaryOption", "AmericanBinaryOption"]
+CLAUSE_PARS = {"knock_up": [1.0, 1.01, 1.03], "knock_down": [1.0, 0.99, 0.97], "cap": [0.0, 0.005, 0.02], "fee": [0.25, 0.01, -0.02],
+               "scale": [0.5, 2.0, -1.0], "rebate_up": [0.125, 0.5]}
+CLAUSE_CRITERIA = ["entropic_risk", "expected_shortfall", "entropic_loss"]
+# (option, clauses in the order of registration, criterion, cost rate, state-dependent form): each bites on every set of paths with a non-zero payoff
+CLAUSE_CORPUS = [
+    ("EuropeanOption", [("fee", 0.25)], "entropic_risk", 0.0),
+    ("EuropeanOption", [("knock_up", 1.0)], "expected_shortfall", 0.0),
+    ("LookbackOption", [("cap", 0.005), ("scale", 0.5)], "entropic_loss", 0.001),
+    ("EuropeanBinaryOption", [("knock_down", 0.99), ("fee", 0.01)], "entropic_risk", 0.0),
+    ("AmericanBinaryOption", [("scale", -1.0)], "expected_shortfall", 0.002),
+    ("EuropeanOption", [("rebate_up", 0.5), ("cap", 0.02)], "entropic_loss", 0.0),
+]
+
+
+def clause_fn(torch, kind, par):
+    """a contractual clause (derivative, payoff) -> payoff, out of place"""
+    if kind == "knock_up":
+        return lambda d, p: p.where(~(d.ul().spot.max(-1).values >= par), torch.zeros_like(p))
+    if kind == "knock_down":
+        return lambda d, p: p.where(~(d.ul().spot.min(-1).values <= par), torch.zeros_like(p))
+    if kind == "cap":
+        return lambda d, p: p.clamp(max=par)
+    if kind == "fee":
+        return lambda d, p: p + par
+    if kind == "scale":
+        return lambda d, p: p * par
+    return lambda d, p: p + par * (d.ul().spot.max(-1).values >= 1.0).to(p)     # rebate_up: paid when the start price is reached again
+
+
+def clause_section(ctx, torch, g):
+    """A derivative with 1-2 registered clauses that alter its payoff on the simulated paths, hedged by a state-independent hedger:
+    compute_loss (same torch seed = same paths) == criterion(P&L of the hedge taken one step at a time, get_input(i) -> model, with the clauses
+    applied by hand to the raw payoff) == criterion(compute_pl on the same paths); hedge and P&L all at once == one step at a time."""
+    import math
+    import pfhedge.instruments as pi
+    import pfhedge.nn as pn
+    from pfhedge.nn.functional import pl as pl_fn
+    n = 10 if ctx.tier == "quick" else 80
+    for it in range(len(CLAUSE_CORPUS) + n):
+        if it < len(CLAUSE_CORPUS):
+            option, clauses, crit, cost = CLAUSE_CORPUS[it]
+        else:
+            option, crit, cost = g.choice(CLAUSE_OPTIONS), g.choice(CLAUSE_CRITERIA), g.choice([0.0, 0.0, 0.001, 0.01])
+            kinds = [g.choice(sorted(CLAUSE_PARS)) for _ in range(g.choice([1, 1, 2]))]
+            clauses = [(k_, g.choice(CLAUSE_PARS[k_])) for k_ in kinds]
+        T, N = g.choice([2, 3, 5, 8]), g.choice([4, 16, 40])
+        names = g.choice([["log_moneyness", "time_to_maturity"], ["moneyness"], ["max_moneyness", "time_to_maturity", "volatility"]])
+        w = [g.randint(-8, 8) / 8 for _ in names]
+        b = g.randint(-4, 4) / 8
+        seed_l = g.randint(0, 10 ** 6)
+        u = pi.BrownianStock(sigma=0.25, cost=cost, dt=1 / 64, dtype=torch.float64)
+        kw = {} if "Binary" in option or option == "LookbackOption" and g.chance(0.5) else {"call": g.chance(0.7)}
+        d = getattr(pi, option)(u, maturity=T / 64, strike=g.choice([1.0, 0.98, 1.02]), **kw)
+        fns = [clause_fn(torch, k_, p_) for k_, p_ in clauses]
+        for j, f_ in enumerate(fns):
+            d.add_clause(f"{clauses[j][0]}_{j}", f_)
+        model = torch.nn.Linear(len(names), 1).double()
+        with torch.no_grad():
+            model.weight.copy_(torch.tensor([w], dtype=torch.float64))
+            model.bias.copy_(torch.tensor([b], dtype=torch.float64))
+        criterion = {"entropic_risk": lambda: pn.EntropicRiskMeasure(), "expected_shortfall": lambda: pn.ExpectedShortfall(0.5),
+                     "entropic_loss": lambda: pn.EntropicLoss()}[crit]()
+        hedger = pn.Hedger(model, names, criterion=criterion)
+        case = {"option": option, "option_kwargs": kw, "strike": d.strike, "clauses": [list(c) for c in clauses], "criterion": crit, "cost": cost, "T": T + 1, "N": N,
+                "features": names, "w": w, "b": b, "torch_seed": seed_l}
+        key = "clause:" + "+".join(k_ for k_, _ in clauses)
+        with torch.no_grad():
+            torch.manual_seed(seed_l)
+            stl, loss_b, _ = call_impl(hedger.compute_loss, d, n_paths=N)
+            torch.manual_seed(seed_l)
+            d.simulate(n_paths=N)
+            spot0 = u.spot.clone()
+            raw = d.payoff_fn().clone()
+            pay = raw
+            for f_ in fns:
+                pay = f_(d, pay)
+            bites = not torch.equal(pay, raw)
+            ctx.case(case, nontrivial=bites, tag="clause")
+            ctx.traces += 1
+            ctx.stats[f"clause: bites={bites}"] += 1
+            sth, hb, _ = call_impl(hedger.compute_hedge, d)
+            stp, plb, _ = call_impl(hedger.compute_pl, d)
+            cols = [model(hedger.get_input(d, i).clone()) for i in range(u.spot.size(1) - 1)]
+            hs = torch.cat(cols + [cols[-1]], dim=-2).transpose(-1, -2)
+            pls = pl_fn(spot=spot0.unsqueeze(1), unit=hs, cost=[cost], payoff=pay)
+            loss_s = criterion(pls)
+            if not torch.equal(u.spot, spot0):
+                ctx.fail("the simulated prices changed while hedge and P&L were evaluated", case, key="clause:market")
+                continue
+            if not (stl == sth == stp == "ok"):
+                ctx.fail("compute_loss / compute_hedge / compute_pl raises on a derivative carrying clauses", case, key=key + ":error",
+                         detail=[str(loss_b)[:100], str(hb)[:100], str(plb)[:100]])
+                continue
+            close = lambda x, y: tuple(x.shape) == tuple(y.shape) and bool(((x - y).abs() <= 1e-9 * (1 + y.abs())).all())   # noqa  (Linear on simulated prices: 1e-9 relative)
+            if not close(hb, hs):
+                ctx.fail("derivative with clauses: the hedge all at once differs from the hedge one step at a time", case, key=key + ":hedge",
+                         detail={"batched": hb.tolist(), "stepwise": hs.tolist()})
+                continue
+            if not close(plb, pls):
+                ctx.fail("derivative with clauses: compute_pl differs from the P&L of the step-by-step hedge against the payoff with the clauses applied", case,
+                         key=key + ":pl", detail={"compute_pl": plb.tolist(), "stepwise": pls.tolist(), "payoff": pay.tolist(), "raw_payoff": raw.tolist()})
+                continue
+            la, lb, lc = loss_b.item(), loss_s.item(), criterion(plb).item()
+            if all(math.isfinite(x) for x in (la, lb, lc)) and (abs(la - lb) > 1e-9 * (1 + abs(lb)) or abs(la - lc) > 1e-9 * (1 + abs(lc))):
+                ctx.fail("derivative with clauses: compute_loss differs from the criterion of the P&L taken one step at a time (clauses applied to the payoff) / of compute_pl "
+                         "on the same simulated paths", case, key=key + ":loss",
+                         detail={"compute_loss": la, "criterion(stepwise P&L)": lb, "criterion(compute_pl)": lc, "payoff": pay.tolist(), "raw_payoff": raw.tolist()})
+
+
 def check(ctx):
     torch, pfhedge = import_impl()
     from pfhedge.nn import Hedger
@@ -1173,6 +1285,8 @@ def check(ctx):
     inplace_section(ctx, torch, g, reqs, metas)
     # ------------------------------------------------------------------ features on series with non-finite entries (NaN, +inf, -inf)
     nonfinite_section(ctx, torch, g)
+    # ------------------------------------------------------------------ derivatives with clauses that alter the payoff: hedge / P&L / loss
+    clause_section(ctx, torch, g)
     try:
         outs = ctx.driver(reqs)
     except DriverBroken as e:
@@ -1214,6 +1328,8 @@ def check(ctx):
              "P&L, loss and the market afterwards (deterministic corpus + random); every feature, a ModuleOutput and a FeatureList on user-registered price / variance / volatility "
              "series with NaN / +inf / -inf at the first, an inner or the last step, float64 and float32: get(i) == column i of get(None) with NaN equal to NaN, every step "
              "(deterministic corpus feature x value x position with the Barrier threshold touched before the hole, + random; real code only); "
+             "options carrying 1-2 clauses (knock-out up/down, cap, fee, scale, rebate) that alter the payoff on the simulated paths: compute_loss == criterion(step-by-step P&L "
+             "with the clauses applied by hand) == criterion(compute_pl), hedge and P&L in both modes (deterministic corpus + random; real code only); "
              "non-trivial = T>=2; distinct = sha1 of canonical case")
 
 
